@@ -32,6 +32,42 @@ CHECKS = {
             'mapping-key / kwargs / uses order, ignored and default-valued parameters, config->context moves, '
             'global_vars values, absent optional input, set iteration order) the storage key of every task is the '
             'same for every parameter value (unsat per path); two recorded findings are confirmed by replay.', '7/C02'),
+    'C01': ('bounded symbolic execution of real chains over a model file system: symbolic operation histories (choice variables) and symbolic parameter values flowing through construction, run, storage under symbolic file names and loading; value terms compared by cvc5/z3',
+            'H1: for 4-6 adversarial configuration pairs on one store, every history of 3 (thorough 4) operations '
+            '(build, request, force, failing run, restart) returns, for each request, the value of the requesting '
+            'chain\'s own configuration. H2-H4: for all parameter / context values (unbounded strings and integers) a '
+            'second configuration never receives a value computed for other values, also across namespace mountings '
+            'and cross-namespace wirings (unsat per path); the quote collision is a recorded finding.', '7/C01'),
+    'C04': ('branch-driven symbolic exploration of Task.data / Chain over a model file system with store pre-state and operation history as solver-tracked bounded integers; run logs compared with a reference closure',
+            'All DAGs on 2-4 tasks, every store pre-state, every history of 2-3 operations (request on current / '
+            'previous chain, all inspection calls, new chain with own or shared registry, restart): each step runs '
+            'exactly the needed-and-missing closure, inspections run nothing, at most one run per location. '
+            'Exhaustive within those bounds; by induction on the store invariant longer histories are covered for '
+            'the family.', '7/C04'),
+    'C05': ('branch-driven symbolic exploration of Task.data and the Data classes over a model file system with the fault (kind, crash tick, torn prefix) as solver-tracked bounded integers; violations replayed on the real file system by killing a child process at the same operation',
+            'For 8 data classes x first/forced computation x every fault kind (run raises early/late/at item m, '
+            'mistyped or unserialisable value, process death before every file operation with 3 torn-prefix kinds): '
+            'a later chain finds either no result and recomputes, or the complete value; failed directory tasks are '
+            'set aside, resumable ones keep their work directory. Exhaustive within the model.', '7/C05'),
+    'C07': ('branch-driven symbolic exploration of Chain.force / Task.force / Task.data over a model file system with pre-state, forced set, flags, failure and later requests as solver-tracked bounded integers',
+            'All DAGs on 2-3 tasks (4: sample), every pre-state, every non-empty forced set, all flag combinations, a '
+            'failing forced run, a second force and later requests on the same or a fresh chain: forced flags, deleted '
+            'results, run counts, values and the replaced stored result match the reference closure.', '7/C07'),
+    'C13': ('bounded symbolic execution of MultiChain._prepare with symbolic parameter values and a symbolic-key registry; object identity vs. equality of reference keys decided by cvc5/z3; request/force histories by symbolic choice',
+            'For 2-3 configs of three pipelines with unbounded symbolic values: corresponding tasks are one object '
+            'exactly when their computations cannot differ (two unsat queries per pair and path), member keys equal '
+            'standalone keys; histories of 3 request/force operations across members: shared values come from '
+            'memory, MultiChain.force reaches every member.', '7/C13'),
+    'C18': ('branch-driven symbolic exploration of the run-record plumbing over a model file system with per-handle offsets; history as solver-tracked bounded integers',
+            'Every history of 3 (thorough 4) operations (request, failing run, force+request, new chain, restart) on a '
+            'three-task pipeline with a name/group coincidence: after every step run info and log of every stored '
+            'result, read through every live chain object, describe exactly the run that produced it, and no file '
+            'handler stays on a task logger.', '7/C18'),
+    'C19': ('bounded symbolic execution of TestChain / create_test_task next to a real chain, mock and parameter values as SMT variables (opaque sort, ints, strings); value terms compared by cvc5/z3',
+            'For four task shapes (inputs by class / by name, registry / run-argument access, defaults, chain object '
+            'parameter, two levels) and both helpers: the helper value equals the real chain value for all mock and '
+            'parameter values, also after forcing; mocks never run nor persist; missing inputs / parameters are '
+            'reported at construction.', '7/C19'),
 }
 NOT_YET = 'check not built yet in this round (planned, see DESIGN.md section 7); not claimed until it runs'
 ALL = [f'C{i:02d}' for i in range(1, 21)]
